@@ -136,9 +136,10 @@ CLAIMED = {
         'text': "Kani (CBMC) harnesses on the real crate, sequential, complete (loop-free or fully unwound, full-domain scalars): from an ARBITRARY prior value of the two cross-query globals (stop flag, id counter) "
                 "start_query() and make_query() re-establish the initial state (flag clear, ids restart), and next_id/set_var_id/clear_id/stop_query satisfy their counter/flag contracts. "
                 "This turns the history property into a per-constructor contract, as the statement's proviso allows. make_query is verified modularly with Unifiable::recreate_variables stubbed; "
-                "the stub's frame assumption (renaming never writes the stop flag) is re-checked by a source scan on every run.",
-        'note': 'Assumed, not checked: the engine reads no other cross-query state and reads these two only through count_rules / next_id; start_query_timer (thread) is read, not proved. Trusted: Kani 0.68 / CBMC 6.11, stubs for fmt::format and RandomState::new.',
-        'technique': 'Kani harnesses (complete BMC) with function stubbing on the real crate',
+                "the stub's frame assumption (renaming never writes the stop flag) is re-checked by a source scan on every run. start_query_timer (what solve / solve_all begin with) clears the flag before arming the timer (ThreadTimer stubbed). "
+                "parse_query, the string-driven constructor, is proved in Verus on its verbatim body to return only queries obtained from make_query (provenance clause #query_from_constructor).",
+        'note': 'Assumed, not checked: the engine reads no other cross-query state and reads these two only through count_rules / next_id; the timer thread itself is stubbed. Trusted: Kani 0.68 / CBMC 6.11, stubs for fmt::format, RandomState::new, ThreadTimer; Verus trusted base of unit parsers (T1-T5).',
+        'technique': 'Kani function-level harnesses (complete BMC, callee stubbed) on the real crate + contract-based deductive verification (Verus) of parse_query',
         'engine': 'kani-harnesses',
         'design_ref': 'DESIGN.md 5/C22',
     },
